@@ -424,4 +424,9 @@ func gen(rng *vh.Rng, n int, emit func(id string, sel int, in []int64, kind stri
 		}
 		emit(fmt.Sprintf("place-%d", i), 2, in, "placement/gradient+lca", hasHyperMember(evs), descEvents(evs))
 	}
+	tr := rng.Fork()
+	for i := 0; i < n/40+30; i++ {
+		in, nt, desc := genTrace(tr.Fork())
+		emit(fmt.Sprintf("trace-%d", i), 3, in, "placement/allocate-trace", nt, desc)
+	}
 }
